@@ -27,6 +27,25 @@ def c17(run):
         "after a crash'; restart behaviour and Observe counter values are NOT decided.")
 
 
+def c13(run):
+    from rules import r_lock, r_cfgts
+    Prel = run.prog('rel')
+    Pts = run.prog('ts')
+    r_cfgts.run(run, Prel, Pts, run.generated())
+    r_lock.run(run, Pts)
+    run.assumptions = ASSUME_COMMON + [
+        "paths after a failed re-lock (state F; only possible while coap_cleanup() runs concurrently) carry no obligations",
+        "address-taken library functions (layer tables, persistence call-outs, TLS back-end callbacks) are entered with the lock held",
+        "data races on the deliberately unlocked accessors and progress under all schedules are NOT decided"]
+    return run.finish(
+        "Lock discipline decided statically: (R-CFG-TS) the advertised capability matches the compiled mechanism; (R-LOCK-BAL) lock "
+        "typestate {U,L,F} balanced on every path of every function in every calling context reached from the public API; (R-LOCK-CALL) "
+        "the project's own precondition marker and every function that transitively reaches it are only entered with the lock held, and no "
+        "library code calls a locking COAP_API wrapper while locked; (R-LOCK-CB) in_callback increments balance and application callbacks "
+        "run with in_callback>0 or unlocked; (R-LOCK-WAIT) no unbounded wait while locked. Necessary for 'serialised and never deadlocks'.")
+
+
 PROPS = {
+    'C13': c13,
     'C17': c17,
 }
